@@ -214,35 +214,34 @@ fn rect_path(x: f32, y: f32, w: f32, h: f32) -> Path {
 }
 
 /// coverage of the shape of a drawing call, w*h bytes. None: not a shape-carrying call.
+///
+/// For fill / fill_rect / stroke / draw_image it is *observed*: the same kind of call with an opaque
+/// white source, SrcOver, alpha 1, on a fresh transparent target under the same transform - there
+/// the alpha byte of every pixel equals its coverage byte (kernel::selftest). This is the canonical
+/// single call; what is checked is that the same shape composites consistently in every other
+/// state. (The rasteriser-only hook `verif_coverage` is used for clip paths, whose masks are
+/// built over the whole surface exactly like the hook's; for fills it can differ from the
+/// bounded mask of `fill` by a stray 1/16 sliver next to the path's bounding box.)
 fn coverage_of(op: &Op, ctm: &Mat, w: i32, h: i32) -> Option<Vec<u8>> {
     let n = (w * h) as usize;
     let t = mk::mat(ctm);
     let singular = t.inverse().is_none();
-    let via_hook = |path: &Path, aa: bool| -> Vec<u8> {
+    let observe = |draw: &dyn Fn(&mut DrawTarget, &DrawOptions), aa: bool| -> Vec<u8> {
         if singular {
             return vec![0; n];
         }
         let mut dt = DrawTarget::new(w, h);
         dt.set_transform(&t);
-        dt.verif_coverage(path, if aa { AntialiasMode::Gray } else { AntialiasMode::None })
+        let o = DrawOptions { blend_mode: BlendMode::SrcOver, alpha: 1., antialias: if aa { AntialiasMode::Gray } else { AntialiasMode::None } };
+        draw(&mut dt, &o);
+        dt.get_data().iter().map(|p| (p >> 24) as u8).collect()
     };
     match op {
-        Op::Fill { path, opts, .. } => Some(via_hook(&mk::build_path(path), opts.aa)),
-        Op::FillRect { rect, opts, .. } => Some(via_hook(&rect_path(rect[0].0, rect[1].0, rect[2].0, rect[3].0), opts.aa)),
-        Op::DrawImageAt { x, y, img, opts } => Some(via_hook(&rect_path(x.0, y.0, img.w as f32, img.h as f32), opts.aa)),
-        Op::DrawImageSized { w: rw, h: rh, x, y, opts, .. } => Some(via_hook(&rect_path(x.0, y.0, rw.0, rh.0), opts.aa)),
-        Op::Stroke { path, style, opts, .. } => {
-            if singular {
-                return Some(vec![0; n]);
-            }
-            // the stroke's own region, observed through an opaque white SrcOver render on a
-            // transparent fresh target (alpha byte == coverage byte, see kernel::selftest)
-            let mut dt = DrawTarget::new(w, h);
-            dt.set_transform(&t);
-            let o = DrawOptions { blend_mode: BlendMode::SrcOver, alpha: 1., antialias: if opts.aa { AntialiasMode::Gray } else { AntialiasMode::None } };
-            dt.stroke(&mk::build_path(path), &white(), &mk::build_style(style), &o);
-            Some(dt.get_data().iter().map(|p| (p >> 24) as u8).collect())
-        }
+        Op::Fill { path, opts, .. } => Some(observe(&|dt, o| dt.fill(&mk::build_path(path), &white(), o), opts.aa)),
+        Op::FillRect { rect, opts, .. } => Some(observe(&|dt, o| dt.fill_rect(rect[0].0, rect[1].0, rect[2].0, rect[3].0, &white(), o), opts.aa)),
+        Op::DrawImageAt { x, y, img, opts } => Some(observe(&|dt, o| dt.fill_rect(x.0, y.0, img.w as f32, img.h as f32, &white(), o), opts.aa)),
+        Op::DrawImageSized { w: rw, h: rh, x, y, opts, .. } => Some(observe(&|dt, o| dt.fill_rect(x.0, y.0, rw.0, rh.0, &white(), o), opts.aa)),
+        Op::Stroke { path, style, opts, .. } => Some(observe(&|dt, o| dt.stroke(&mk::build_path(path), &white(), &mk::build_style(style), o), opts.aa)),
         Op::Mask { x, y, w: mw, h: mh, data, .. } => {
             if singular {
                 return Some(vec![0; n]);
